@@ -336,11 +336,20 @@ get_sos(j_decompress_ptr cinfo)
     INPUT_BYTE(cinfo, cc, return FALSE);
     INPUT_BYTE(cinfo, c, return FALSE);
 
-    for (ci = 0, compptr = cinfo->comp_info;
-         ci < cinfo->num_components && ci < MAX_COMPS_IN_SCAN;
+    /* Find the first component with this ID that is not already part of the
+     * scan.  (Any component of the frame can be referred to, not just the
+     * first MAX_COMPS_IN_SCAN.)
+     */
+    for (ci = 0, compptr = cinfo->comp_info; ci < cinfo->num_components;
          ci++, compptr++) {
-      if (cc == compptr->component_id && !cinfo->cur_comp_info[ci])
-        goto id_found;
+      if (cc == compptr->component_id) {
+        for (pi = 0; pi < i; pi++) {
+          if (cinfo->cur_comp_info[pi] == compptr)
+            break;
+        }
+        if (pi == i)
+          goto id_found;
+      }
     }
 
     ERREXIT1(cinfo, JERR_BAD_COMPONENT_ID, cc);
